@@ -132,13 +132,44 @@ def iter_source(body, term, getters=None):
     return d
 
 
+def _plus_one(t):
+    """X when t is X + 1 (checked or plain), else None"""
+    if t[0] == "field" and str(t[2]) == "0" and t[1][0] == "binop" and t[1][1] == "AddWithOverflow":
+        t = ("binop", "Add", t[1][2], t[1][3])
+    if t[0] == "binop" and t[1] == "Add":
+        if t[3] == ("int", 1):
+            return t[2]
+        if t[2] == ("int", 1):
+            return t[3]
+    return None
+
+
+def _canon_range(lo, hi, incl):
+    """a..(b+1) is the same set as a..=b: report ranges in one canonical form where possible"""
+    if not incl and hi is not None:
+        x = _plus_one(hi)
+        if x is not None:
+            return (lo, x, True)
+    return (lo, hi, incl)
+
+
 def range_of(body, term, getters=None):
-    """(lo, hi, inclusive) when `term` (an iterator local or expression) is a Range / RangeInclusive; else None"""
+    """(lo, hi, inclusive) when `term` (an iterator local or expression) is a Range / RangeInclusive; else None.
+    Trivial range getters of the crate (fn f(&self) -> lo..=g(self), e.g. DSet::indices / DSet::elements) are inlined."""
     d = norm(body.def_origin(term), getters)
     while d[0] == "call" and len(d[2]) >= 1 and any(d[1].endswith(w) for w in ITER_WRAPPERS):
         d = d[2][0]
+    if d[0] == "call" and len(d[2]) == 1 and body.facts is not None:
+        for tg in body.facts.resolve_targets(d[1])[:1]:
+            fb = body.facts.bodies.get(tg)
+            if fb is not None and fb.argc == 1:
+                r = norm(fb.local_origin(0), getters)
+                arg = d[2][0]
+                r = map_term(r, lambda n: arg if n[0] == "param" and n[1] == 1 else None)
+                if (r[0] == "call" and r[1].endswith("RangeInclusive::<Idx>::new")) or (r[0] == "agg" and r[1].endswith("ops::Range::Range")):
+                    d = r
     if d[0] == "agg" and d[1].endswith("ops::Range::Range") and len(d[2]) == 2:
-        return (d[2][0], d[2][1], False)
+        return _canon_range(d[2][0], d[2][1], False)
     if d[0] == "call" and d[1].endswith("RangeInclusive::<Idx>::new") and len(d[2]) == 2:
         return (d[2][0], d[2][1], True)
     if d[0] == "agg" and d[1].endswith("RangeFrom::RangeFrom") and len(d[2]) == 1:
